@@ -42,7 +42,7 @@ def edit(root, rel, old, new, count=1):
 
 def run_check(pid, root, tier="quick"):
     """Run a check against a scratch root; returns (exit code, stdout)."""
-    env = dict(os.environ, VERIF_REPO=root)
+    env = dict(os.environ, VERIF_REPO=root, VERIF_JOBS=os.environ.get("VERIF_SELFTEST_JOBS", "4"))
     p = subprocess.run(["python3-vt", "-m", "sa.check", pid, "--tier", tier, "--no-evidence"],
                        cwd=os.path.dirname(os.path.dirname(os.path.abspath(__file__))), env=env,
                        capture_output=True, text=True)
